@@ -6,12 +6,12 @@ use std::cell::RefCell;
 use std::collections::BTreeSet;
 
 use reed_solomon_simd::engine::{
-    Avx2, Engine, GfElement, Naive, NoSimd, ShardsRefMut, Ssse3, GF_ORDER,
+    Avx2, DefaultEngine, Engine, GfElement, Naive, NoSimd, ShardsRefMut, Ssse3, GF_ORDER,
 };
 
 use crate::neon::NeonEmu;
 
-pub const NAMES: [&str; 5] = ["NoSimd", "Naive", "Ssse3", "Avx2", "NeonEmu"];
+pub const NAMES: [&str; 6] = ["NoSimd", "Naive", "Ssse3", "Avx2", "NeonEmu", "DefaultEngine"];
 
 #[derive(Default)]
 pub struct LockstepLog {
@@ -95,6 +95,8 @@ pub struct Lockstep {
     ssse3: Ssse3,
     avx2: Avx2,
     neon: NeonEmu,
+    /// the dispatcher itself (whatever it selects under the CPU mask of the run) is an engine like the others
+    default: DefaultEngine,
 }
 
 impl Lockstep {
@@ -105,11 +107,12 @@ impl Lockstep {
             ssse3: Ssse3::new(),
             avx2: Avx2::new(),
             neon: NeonEmu::new(),
+            default: DefaultEngine::new(),
         }
     }
 
-    fn engines(&self) -> [&dyn Engine; 5] {
-        [&self.nosimd, &self.naive, &self.ssse3, &self.avx2, &self.neon]
+    fn engines(&self) -> [&dyn Engine; 6] {
+        [&self.nosimd, &self.naive, &self.ssse3, &self.avx2, &self.neon, &self.default]
     }
 
     fn transform(
@@ -129,7 +132,7 @@ impl Lockstep {
         }
         let name = if prim == 0 { "fft" } else { "ifft" };
 
-        let mut results: Vec<Vec<[u8; 64]>> = Vec::with_capacity(5);
+        let mut results: Vec<Vec<[u8; 64]>> = Vec::with_capacity(6);
         for engine in self.engines() {
             let mut copy = snapshot.clone();
             {
@@ -263,7 +266,7 @@ impl Lockstep {
                 *c = [0; 64];
             }
         }
-        let mut results: Vec<Vec<[u8; 64]>> = Vec::with_capacity(5);
+        let mut results: Vec<Vec<[u8; 64]>> = Vec::with_capacity(6);
         // every other shadow call hands the blocks over at an address that is not 16-byte aligned
         let misalign = (skew_delta + pos + truncated_size) % 2 == 1;
         for engine in self.engines() {
@@ -331,7 +334,7 @@ impl Engine for Lockstep {
 
     fn mul(&self, x: &mut [[u8; 64]], log_m: GfElement) {
         let snapshot = x.to_vec();
-        let mut results: Vec<Vec<[u8; 64]>> = Vec::with_capacity(5);
+        let mut results: Vec<Vec<[u8; 64]>> = Vec::with_capacity(6);
         for engine in self.engines() {
             let mut copy = snapshot.clone();
             engine.mul(&mut copy, log_m);
@@ -365,7 +368,7 @@ impl Engine for Lockstep {
                 2 => 65534,
                 _ => p.below(65536) as GfElement,
             };
-            let mut res2: Vec<Vec<[u8; 64]>> = Vec::with_capacity(10);
+            let mut res2: Vec<Vec<[u8; 64]>> = Vec::with_capacity(12);
             for engine in self.engines() {
                 let mut copy = snapshot.clone();
                 engine.mul(&mut copy, log2);
@@ -383,7 +386,7 @@ impl Engine for Lockstep {
                 l.perturbed_calls += 1;
                 for (n, res) in res2.iter().enumerate().skip(1) {
                     if res != &res2[0] {
-                        l.violations.push(format!("mul(log_m={log2}, blocks={}) [perturbed shadow call{}]: {} differs from {}", x.len(), if n >= 5 { ", blocks at an address that is not 16-byte aligned" } else { "" }, NAMES[n % 5], NAMES[0]));
+                        l.violations.push(format!("mul(log_m={log2}, blocks={}) [perturbed shadow call{}]: {} differs from {}", x.len(), if n >= 6 { ", blocks at an address that is not 16-byte aligned" } else { "" }, NAMES[n % 6], NAMES[0]));
                     }
                 }
             });
@@ -394,7 +397,7 @@ impl Engine for Lockstep {
         fn boxed(src: &[GfElement; GF_ORDER]) -> Box<[GfElement; GF_ORDER]> {
             src.to_vec().into_boxed_slice().try_into().unwrap()
         }
-        let mut results: Vec<Box<[GfElement; GF_ORDER]>> = Vec::with_capacity(5);
+        let mut results: Vec<Box<[GfElement; GF_ORDER]>> = Vec::with_capacity(6);
         let mut c = boxed(erasures);
         NoSimd::eval_poly(&mut c, truncated_size);
         results.push(c);
@@ -409,6 +412,9 @@ impl Engine for Lockstep {
         results.push(c);
         let mut c = boxed(erasures);
         NeonEmu::eval_poly(&mut c, truncated_size);
+        results.push(c);
+        let mut c = boxed(erasures);
+        DefaultEngine::eval_poly(&mut c, truncated_size);
         results.push(c);
         LOG.with(|l| {
             let mut l = l.borrow_mut();
@@ -430,5 +436,39 @@ impl Engine for Lockstep {
             }
         });
         erasures.copy_from_slice(&results[0][..]);
+        // perturbed shadow call: another erasure pattern and another truncated size (tiny ones included)
+        if let Some(mut p) = perturb_draw() {
+            const T: [usize; 15] = [1, 2, 3, 4, 5, 7, 8, 9, 16, 100, 1000, 4096, 32768, 65535, 65536];
+            let t = T[p.below(T.len() as u64) as usize];
+            let mut input: Box<[GfElement; GF_ORDER]> = vec![0; GF_ORDER].into_boxed_slice().try_into().unwrap();
+            let density = 1 + p.below(4);
+            for e in input.iter_mut().take(t) {
+                *e = GfElement::from(p.below(4) < density);
+            }
+            input[0] |= GfElement::from(t <= 2);
+            let mut res2: Vec<Box<[GfElement; GF_ORDER]>> = Vec::with_capacity(6);
+            macro_rules! run {
+                ($E:ty) => {{
+                    let mut c = boxed(&input);
+                    <$E>::eval_poly(&mut c, t);
+                    res2.push(c);
+                }};
+            }
+            run!(NoSimd);
+            run!(Naive);
+            run!(Ssse3);
+            run!(Avx2);
+            run!(NeonEmu);
+            run!(DefaultEngine);
+            LOG.with(|l| {
+                let mut l = l.borrow_mut();
+                l.perturbed_calls += 1;
+                for (n, res) in res2.iter().enumerate().skip(1) {
+                    if res[..] != res2[0][..] {
+                        l.violations.push(format!("eval_poly(truncated={t}) [perturbed shadow call]: {} differs from {}", NAMES[n], NAMES[0]));
+                    }
+                }
+            });
+        }
     }
 }
